@@ -81,14 +81,18 @@ func c10Gen(t *rapid.T) C10Case {
 	c.R1 = genReq(t, p)
 	c.Alt = genReq(t, p)
 	c.Alt.Method = c.R1.Method
+	// Vary values set earlier in the chain: unrelated names, the middleware's
+	// own names (any case), and near-misses of them (names that merely
+	// contain "Origin" or an Access-Control-Request-* name as a substring)
+	varyPool := []string{"before", "Accept-Encoding", "Cookie, X-Thing", "Origin", "origin", "X-Original-Host", "X-Forwarded-Origin", "Origin-Agent-Cluster", "Sec-Origin-Policy",
+		"X-Origin", "Access-Control-Request-Methods", "X-Access-Control-Request-Headers", "Access-Control-Request-Method", "Access-Control-Request-Headers, Origin",
+		"Access-Control-Request-Headers, Access-Control-Request-Method, Access-Control-Request-Private-Network, Origin", "Access-Control-Request-Private-Networks", "Accept, Original-Url"}
 	switch k := uniform(t, "preset", 100); {
-	case k < 50:
-	case k < 70:
-		c.Preset = []HV{{hVary, Vals("before")}}
-	case k < 85:
-		c.Preset = []HV{{hVary, Vals("Accept-Encoding", "Cookie, X-Thing")}, {"X-Pre", Vals("1")}}
-	case k < 90:
-		c.Preset = []HV{{hVary, Vals("Origin")}}
+	case k < 40:
+	case k < 75:
+		c.Preset = []HV{{hVary, Vals(pick(t, "vary1", varyPool))}}
+	case k < 88:
+		c.Preset = []HV{{hVary, Vals(pick(t, "vary1", varyPool), pick(t, "vary2", varyPool))}, {"X-Pre", Vals("1")}}
 	case k < 95:
 		c.Preset = []HV{{"X-Pre", Vals("1", "2")}}
 	default:
